@@ -166,17 +166,9 @@ fn regex<'a, T: Queryable>(lhs: State<'a, T>, rhs: State<'a, T>, substr: bool) -
 
 fn prepare_regex(pattern: String, substring: bool) -> String {
     let pattern = if !substring {
-        let pattern = if pattern.starts_with('^') {
-            pattern
-        } else {
-            format!("^{}", pattern)
-        };
-        let pattern = if pattern.ends_with('$') {
-            pattern
-        } else {
-            format!("{}$", pattern)
-        };
-        pattern
+        // match() must cover the entire string: anchor the pattern as a whole, so that the
+        // anchors do not bind to the first and last alternative only (`a|b`)
+        format!("^(?:{})$", pattern)
     } else {
         pattern.to_string()
     };
